@@ -53,5 +53,9 @@ for pid, p in props.items():
     if int(rnd) >= 7:
         extra += ("Before you start, write down at least eight candidate ideas, discard the five that a person would think of first, and implement three of the remaining ones: "
                   "the goal is changes unlike the usual suspects (not another off-by-one on a buffer size, not another 'compare sizes instead of contents', not another missing case conversion). ")
+    if int(rnd) >= 12:
+        extra += ("Earlier rounds already covered the single-site, single-input kind of change well. This time favour changes whose effect depends on HISTORY or COMBINATION: the second or later of several similar inputs "
+                  "in one run, something remembered from an earlier element (a flag, a cache, a buffer, a counter) that leaks into a later one, an entry point behaving differently after another one was used, "
+                  "an optional cargo feature combined with an unusual input, or an error on one element changing how the following elements are treated. ")
     open('/tmp/prompts%s/%s.txt' % (rnd, pid), 'w').write(tmpl.format(wt=wt, pid=pid, title=p['title'], statement=p['statement'], quant=p['quantifier']['text'], anchors=anchors, extra=extra))
 print("ok", len(props))
